@@ -21,7 +21,7 @@ func stdVariants(profile string) []variant {
 		{Name: profile + "-nofault", Profile: profile, Policy: "rtc", Steps: 90, Weight: 3},
 		{Name: profile + "-confirm", Profile: profile, Policy: "rtc", Steps: 90, Faults: confirmFaults, FaultRate: 0.03, Weight: 3},
 		{Name: profile + "-churn", Profile: profile, Policy: "rtc", Steps: 90, Faults: with(confirmFaults, "node_loss", "app_remove_live", "req_dup", "clock_jump", "predicate_flap"), FaultRate: 0.03, Weight: 3},
-		{Name: profile + "-deadline", Profile: profile, Policy: "rtc", Steps: 90, Faults: with(confirmFaults, "deadline_race", "predicate_flap"), FaultRate: 0.05, Weight: 2},
+		{Name: profile + "-deadline", Profile: profile, Policy: "rtc", Steps: 90, Faults: with(confirmFaults, "deadline_race", "predicate_flap", "predicate_side_effect"), FaultRate: 0.05, Weight: 2},
 		{Name: profile + "-interleaved", Profile: profile, Policy: "rnd", PreemptP: 0.05, Steps: 70, Faults: with(confirmFaults, "xchan_reorder", "node_loss", "app_remove_live"), FaultRate: 0.03, Weight: 2},
 	}
 }
